@@ -3,9 +3,22 @@ import TTV.Model.Result
 namespace TTV.ResC08
 open TTV.Result
 
+/-- a linear stack (`ExtendedToOriginalDecorator` / `TestResultDecorator` / `Tagger` layers) over a `TestByTestResult` -/
+def linearTbt : Shape → Bool
+  | .tbt => true
+  | .etod c | .deco c | .tagger _ _ c | .ffbox _ _ c => linearTbt c
+  | _ => false
+
+/-- `faults`: the tests for which the user's `on_test` callback raises (after having been called).  Only for
+`linearTbt` shapes.  The exception leaves `stopTest` towards the caller and changes nobody's state: every layer above
+updates its own tag context before it delegates `stopTest`, and `TestByTestResult.stopTest` takes the tags and leaves
+the test's tag context (`super().stopTest`) *before* it calls `on_test` — `tbtStep` is written in that order.  So the
+model's transition does not mention `faults`; that this is what the code does is checked by the correspondence (the
+harness raises from the callback, catches the exception at the caller and carries on with the history). -/
 structure Input where
   shape : Shape
   hist : List Call
+  faults : List Nat := []
 deriving Repr
 
 /-- what the harness observes of one leaf: its event log and (for a `TestByTestResult`) its callbacks -/
